@@ -404,7 +404,24 @@ func runSess(cfg *config) {
 						nt = 1
 					}
 					t := fmt.Sprintf("t%d", r.Range(1, nt))
-					switch r.Intn(5) {
+					switch r.Intn(7) {
+					case 5, 6:
+						// SELECT through the session: answered, or refused with an error value (unknown table or
+						// column, ambiguous name, ill-typed comparison, unknown sort key) - never a crash
+						qs := []string{
+							"SELECT * FROM " + t,
+							fmt.Sprintf("SELECT b, a FROM %s WHERE a >= %d ORDER BY a DESC LIMIT 3", t, r.Intn(5)),
+							"SELECT a, count(*) FROM " + t + " GROUP BY a",
+							fmt.Sprintf("SELECT x.a, y.b FROM %s x JOIN %s y ON x.a = y.a", t, t),
+							"SELECT * FROM nosuchtable",
+							"SELECT nosuch FROM " + t,
+							fmt.Sprintf("SELECT a FROM %s x JOIN %s y ON x.a = y.a", t, t),
+							"SELECT * FROM " + t + " WHERE a = 'text'",
+							"SELECT * FROM " + t + " ORDER BY nosuch",
+							"SELECT avg(b) FROM " + t,
+							fmt.Sprintf("SELECT * FROM %s JOIN %s ON 1 = 1", t, t),
+						}
+						d.exec(qs[r.Intn(len(qs))])
 					case 0:
 						d.exec(fmt.Sprintf("DELETE FROM %s WHERE a = %d", t, r.Intn(5)))
 					case 1:
